@@ -251,7 +251,13 @@ func (r *Run) Guard(c *Case, what string, caseData any, f func()) (panicked bool
 			if cp, ok := p.(*CarriedPanic); ok {
 				p, st = cp.Val, cp.Stack
 			}
-			r.Violation(c, "panic:"+what+":"+panicSite(st), fmt.Sprintf("panic: %v\n%s", p, st), caseData)
+			if site := panicSite(st); site == "outside-repo" {
+				// no frame of the repository on the stack: the harness itself failed, which is not a verdict on the property
+				fmt.Fprintf(os.Stderr, "HARNESS PANIC in %s: %v\n%s\n", what, p, st)
+				r.Inconclusive(fmt.Sprintf("harness panic in %s: %v", what, p))
+			} else {
+				r.Violation(c, "panic:"+what+":"+site, fmt.Sprintf("panic: %v\n%s", p, st), caseData)
+			}
 		}
 	}()
 	f()
